@@ -6,6 +6,15 @@ import json
 import vlib
 
 
+
+def vacuity(ctx, msg):
+    """a vacuity alarm is a tool error only when nothing else explains the missing cases: with violations or
+    drift on record the verdict comes first and the alarm is demoted to a note"""
+    if ctx.violations or ctx.drift:
+        ctx.note("vacuity (demoted: violations or drift on record): " + msg)
+    else:
+        raise vlib.ToolError("vacuity: " + msg)
+
 def members(tx):
     return sorted({t // 10 for t in tx["ixs"]})
 
@@ -110,7 +119,7 @@ def run(ctx):
     for k in ("merged_in_parallel", "merged_cross_parallel", "payer_changed", "lut_used", "rejected_by_add",
               "at_size_limit", "at_count_limit"):
         if s[k] == 0:
-            raise vlib.ToolError("vacuity: no case with %s" % k)
+            vacuity(ctx, "no case with %s" % k)
     panics = sum(1 for e in allev if e["panic"])
     if panics:
         ctx.note("%d run(s) where optimize() panicked (not judged)" % panics)
